@@ -7,5 +7,6 @@ CONSTANTS
   CtlLensOf <- QCtlLensOf
   MaxCtlOf <- QMaxCtlOf
   ReadSizesOf <- QReadSizesOf
+  ReadBufsOf <- QReadBufsOf
 INVARIANTS Intact AllDelivered PingsIntact SenderConformant Emit
 CHECK_DEADLOCK FALSE
